@@ -119,19 +119,19 @@ theorem headerBlock_ok (f : CsvFmt) (hv : ValidIds f) (hnl : f.sep ≠ '\n') (na
           · exact hh.2 n hn' hcn
 
 /-- the text `writeToFile` produces: the header block when `h > 0` (three comment lines), then the data lines -/
-theorem writeToFile_eq (f : CsvFmt) (geo : Bool) (pf : List Tok) (h naf : Nat) (rows : List (Row × List Int))
+theorem writeToFile_eq (f : CsvFmt) (geo : Bool) (pf : List Tok) (h naf : Nat) (rows : List (Row × List AFVal))
     (srid : Str) (names : List Str)
     (hv : ValidIds f) (hsep : numChar f.sep = false) (hnl : f.sep ≠ '\n') (htime : f.idT ≠ -1 → TimeOK pf f.sep)
-    (hrows : ∀ ra ∈ rows, RowOK f geo pf ra.1) (hh : HdrOK srid names) :
+    (hrows : ∀ ra ∈ rows, RowOK f geo pf ra.1) (hafs : ∀ ra ∈ rows, ∀ v ∈ ra.2, AFOK f.sep v) (hh : HdrOK srid names) :
     ∃ hdr, hdr.length = (if h = 0 then 0 else 3) ∧ (∀ l ∈ hdr, '\n' ∉ l ∧ ∃ cs, strip l = '#' :: cs) ∧
     writeToFile f geo pf h naf rows srid names
       = .ok ((hdr ++ rows.map (fun ra => rowLine f geo pf ra.1 ra.2)).map (· ++ ['\n'])).flatten := by
   unfold writeToFile
-  have := mapM_ok (fun ra : Row × List Int => writeRow f geo pf (orderList f naf) ra.1 ra.2)
+  have := mapM_ok (fun ra : Row × List AFVal => writeRow f geo pf (orderList f naf) ra.1 ra.2)
     (fun ra => rowLine f geo pf ra.1 ra.2) rows (by
       intro ra hra
       have hr := hrows ra hra
-      exact (row_roundtrip_line f geo pf naf ra.1 ra.2 hv hsep hnl (fun ht => ⟨htime ht, hr.1 ht⟩) hr.2).1)
+      exact (row_roundtrip_line f geo pf naf ra.1 ra.2 hv hsep hnl (fun ht => ⟨htime ht, hr.1 ht⟩) hr.2 (hafs ra hra)).1)
   by_cases h0 : h = 0
   · subst h0
     refine ⟨[], rfl, by simp, ?_⟩
@@ -141,20 +141,20 @@ theorem writeToFile_eq (f : CsvFmt) (geo : Bool) (pf : List Tok) (h naf : Nat) (
     have hpos : h > 0 := Nat.pos_of_ne_zero h0
     simp only [this, hpos, ↓reduceIte, hb, pure, Except.pure, bind, Except.bind]
 
-theorem readLines_lines (f : CsvFmt) (geo : Bool) (pf : List Tok) (naf : Nat) (rows : List (Row × List Int))
+theorem readLines_lines (f : CsvFmt) (geo : Bool) (pf : List Tok) (naf : Nat) (rows : List (Row × List AFVal))
     (hv : ValidIds f) (hsep : numChar f.sep = false) (hnl : f.sep ≠ '\n') (htime : f.idT ≠ -1 → TimeOK pf f.sep)
-    (hrows : ∀ ra ∈ rows, RowOK f geo pf ra.1) :
+    (hrows : ∀ ra ∈ rows, RowOK f geo pf ra.1) (hafs : ∀ ra ∈ rows, ∀ v ∈ ra.2, AFOK f.sep v) :
     readLines f pf '#' (rows.map (fun ra => rowLine f geo pf ra.1 ra.2)) = .ok (rows.map (fun ra => expRow f geo pf ra.1)) := by
   induction rows with
   | nil => rfl
   | cons ra r ih =>
     have hr := hrows ra (by simp)
-    have h := row_roundtrip_line f geo pf naf ra.1 ra.2 hv hsep hnl (fun ht => ⟨htime ht, hr.1 ht⟩) hr.2
+    have h := row_roundtrip_line f geo pf naf ra.1 ra.2 hv hsep hnl (fun ht => ⟨htime ht, hr.1 ht⟩) hr.2 (hafs ra (by simp))
     obtain ⟨_, _, hstrip, ⟨c, cs, hc, hne⟩, hread⟩ := h
     simp only [List.map_cons, readLines, hstrip]
     rw [hc]
     simp only [hne, ↓reduceIte]
-    rw [← hc, hread, ih (fun x hx => hrows x (by simp [hx]))]
+    rw [← hc, hread, ih (fun x hx => hrows x (by simp [hx])) (fun x hx => hafs x (by simp [hx]))]
     rfl
 
 theorem readLines_skip_comments (f : CsvFmt) (rf : List Tok) (cm ls : List Str)
@@ -173,9 +173,9 @@ theorem skipHeader_append (pre ls : List Str) : skipHeader pre.length (pre ++ ls
 
 /-- reader side of the header option: a file that starts with `header` lines of any content, then any number of
 comment lines, then the data lines is read as the observations -/
-theorem csv_header_block_roundtrip (f : CsvFmt) (geo : Bool) (pf : List Tok) (naf : Nat) (rows : List (Row × List Int))
+theorem csv_header_block_roundtrip (f : CsvFmt) (geo : Bool) (pf : List Tok) (naf : Nat) (rows : List (Row × List AFVal))
     (hv : ValidIds f) (hsep : numChar f.sep = false) (hnl : f.sep ≠ '\n') (htime : f.idT ≠ -1 → TimeOK pf f.sep)
-    (hrows : ∀ ra ∈ rows, RowOK f geo pf ra.1)
+    (hrows : ∀ ra ∈ rows, RowOK f geo pf ra.1) (hafs : ∀ ra ∈ rows, ∀ v ∈ ra.2, AFOK f.sep v)
     (pre : List Str) (cm : List Str) (hpre : ∀ l ∈ pre, '\n' ∉ l) (hcm : ∀ l ∈ cm, '\n' ∉ l ∧ ∃ cs, strip l = '#' :: cs) :
     readCsv f pf pre.length (((pre ++ (cm ++ rows.map (fun ra => rowLine f geo pf ra.1 ra.2))).map (· ++ ['\n'])).flatten)
       = .ok (rows.map (fun ra => expRow f geo pf ra.1)) := by
@@ -184,29 +184,29 @@ theorem csv_header_block_roundtrip (f : CsvFmt) (geo : Bool) (pf : List Tok) (na
   · rw [skipHeader_append]
     simp only [bind, Except.bind]
     rw [readLines_skip_comments f pf cm _ (fun l hl => (hcm l hl).2)]
-    exact readLines_lines f geo pf naf rows hv hsep hnl htime hrows
+    exact readLines_lines f geo pf naf rows hv hsep hnl htime hrows hafs
   · intro l hl
     simp only [List.mem_append, List.mem_map] at hl
     rcases hl with hl | hl | ⟨ra, hra, rfl⟩
     · exact hpre l hl
     · exact (hcm l hl).1
     · have hr := hrows ra hra
-      exact (row_roundtrip_line f geo pf naf ra.1 ra.2 hv hsep hnl (fun ht => ⟨htime ht, hr.1 ht⟩) hr.2).2.1
+      exact (row_roundtrip_line f geo pf naf ra.1 ra.2 hv hsep hnl (fun ht => ⟨htime ht, hr.1 ht⟩) hr.2 (hafs ra hra)).2.1
 
 /-- **T2 (file)**: the whole file, with or without the header block, read with any header count up to the number
 of header lines written -/
-theorem csv_file_roundtrip (f : CsvFmt) (geo : Bool) (pf : List Tok) (h naf : Nat) (rows : List (Row × List Int))
+theorem csv_file_roundtrip (f : CsvFmt) (geo : Bool) (pf : List Tok) (h naf : Nat) (rows : List (Row × List AFVal))
     (srid : Str) (names : List Str)
     (hv : ValidIds f) (hsep : numChar f.sep = false) (hnl : f.sep ≠ '\n') (htime : f.idT ≠ -1 → TimeOK pf f.sep)
-    (hrows : ∀ ra ∈ rows, RowOK f geo pf ra.1) (hh : HdrOK srid names) :
+    (hrows : ∀ ra ∈ rows, RowOK f geo pf ra.1) (hafs : ∀ ra ∈ rows, ∀ v ∈ ra.2, AFOK f.sep v) (hh : HdrOK srid names) :
     ∃ text, writeToFile f geo pf h naf rows srid names = .ok text ∧
       ∀ hr, hr ≤ (if h = 0 then 0 else 3) → readCsv f pf hr text = .ok (rows.map (fun ra => expRow f geo pf ra.1)) := by
-  obtain ⟨hdr, hlen, hl, hw⟩ := writeToFile_eq f geo pf h naf rows srid names hv hsep hnl htime hrows hh
+  obtain ⟨hdr, hlen, hl, hw⟩ := writeToFile_eq f geo pf h naf rows srid names hv hsep hnl htime hrows hafs hh
   refine ⟨_, hw, ?_⟩
   intro hr hle
   rw [← hlen] at hle
   have hlt : (hdr.take hr).length = hr := by simp [List.length_take, Nat.min_eq_left hle]
-  have := csv_header_block_roundtrip f geo pf naf rows hv hsep hnl htime hrows (hdr.take hr) (hdr.drop hr)
+  have := csv_header_block_roundtrip f geo pf naf rows hv hsep hnl htime hrows hafs (hdr.take hr) (hdr.drop hr)
     (fun l hm => (hl l (List.mem_of_mem_take hm)).1) (fun l hm => hl l (List.mem_of_mem_drop hm))
   rw [hlt, ← List.append_assoc, List.take_append_drop] at this
   exact this
